@@ -147,6 +147,23 @@ func intSafe(k string) bool {
 }
 
 // rows for table t: k rows with distinct values satisfying the generator's checks
+// aliasCols: the INTEGER PRIMARY KEY columns of the desired schema, per table: a NULL copied into such a
+// column becomes a fresh rowid in SQLite (the engine model reports ENotNull instead), so populated
+// model cases keep NULLs out of them
+func aliasCols(b Schema) map[string]bool {
+	m := map[string]bool{}
+	for _, t := range b.Tables {
+		if t.PK != nil && len(t.PK.Parts) == 1 && !t.WithoutRowID {
+			if c := t.col(t.PK.Parts[0].Col); c != nil && strings.EqualFold(typeText(c.Type), "integer") {
+				m[t.Name+"."+c.Name] = true
+			}
+		}
+	}
+	return m
+}
+
+var noNull map[string]bool
+
 func genRows(g *G, t Table) []rowSpec {
 	for _, c := range t.Cols {
 		if c.Gen == nil && !c.Null && !isTextTy(c.Type) && !intSafe(c.Type) {
@@ -169,7 +186,7 @@ func genRows(g *G, t Table) []rowSpec {
 			}
 			v := ""
 			switch {
-			case c.Null && !inPK && g.r.Chance(1, 4):
+			case c.Null && !inPK && !noNull[t.Name+"."+c.Name] && g.r.Chance(1, 4):
 				v = "N"
 			case isTextTy(c.Type):
 				v = "T" + hx(fmt.Sprintf("v%d_%d", i, ci))
@@ -588,9 +605,11 @@ func runEngine(c *ctx) {
 			continue
 		}
 		o := engineOpts{file: i%3 == 0, fk: i%2 == 0, withModel: true}
+		noNull = aliasCols(b)
 		for _, t := range a.Tables {
 			o.rows = append(o.rows, genRows(pg, t)...)
 		}
+		noNull = nil
 		c.engineCase(a, b, d+"+rows", o)
 	}
 	for i := 0; i < n; i++ {
